@@ -735,7 +735,15 @@ func (f *contFam) emitterOracle(w *World, l *vlist) {
 				l.add("listener-once-per-emit", "", fmt.Sprintf("listener %d ran %d times for emit %d but at most %d registrations can have existed", li, n, em.id, possible))
 			}
 			if !removable && n < sureOn {
-				l.add("registered-listener-called", "", fmt.Sprintf("listener %d: %d On-registrations completed before emit %d started and none was removed, but it ran %d times", li, sureOn, em.id, n))
+				// discriminator for the recorded finding: the same function registered with On and with Once (the
+				// Once entry, when it fires, removes "the listener" by function identity and takes the On entry)
+				c := ""
+				for _, r := range ops {
+					if r.li == li && r.op == "Once" && r.call < em.ret {
+						c = "once-and-on-same-function"
+					}
+				}
+				l.add("registered-listener-called", c, fmt.Sprintf("listener %d: %d On-registrations completed before emit %d started and none was removed, but it ran %d times", li, sureOn, em.id, n))
 			}
 		}
 	}
